@@ -42,6 +42,7 @@ def _c11_rest(ctx):
     rec.rule_recognisers(ctx)
     scratch_rule(ctx)
     fin.rule_fin_c11(ctx)
+    pair.rule_no_use_after_handover(ctx)
 
 
 def _c04(ctx):
@@ -56,6 +57,7 @@ def _c04(ctx):
     pair.rule_shadow(ctx)
     pair.rule_newdelete(ctx)
     pair.rule_ownership_handover(ctx)
+    pair.rule_no_use_after_handover(ctx)
 
 
 def _filtered(rule, keep):
@@ -243,7 +245,7 @@ PROPS = {
     },
     "C19": {
         "rules": [tab.rule_g3_visitors, lazy.rule_lazy_chain, lazy.rule_lazy_adj, tab.rule_algorithms, fsm2.rule_dataparser,
-                  esc.rule_esc_g3, pair.rule_newdelete, dead.rule_dead_g3, step_rule, scratch_rule, tab.rule_who_depends, fin.rule_fin_c19, pair.rule_ownership_handover],
+                  esc.rule_esc_g3, pair.rule_newdelete, dead.rule_dead_g3, step_rule, scratch_rule, tab.rule_who_depends, fin.rule_fin_c19, pair.rule_ownership_handover, pair.rule_no_use_after_handover],
         "explanation": "R-VIS V2 every g3 visitor covers all concrete g3 observation classes; R-LAZY stage chain of g3::Model and "
                        "typestate of Adj; R-TAB T1 algorithm names; R-FSM DataParser automaton (no silent error, absorbing error state, "
                        "depth discipline, init() role table verified against its body); R-ESC g3 writers; R-PAIR P2. R-DEAD for the parameter-status chains of g3. Adjusted "
